@@ -266,10 +266,14 @@ def check_property(pid, tier, seed, canary=True):
                     tests, log = kani_run.playback(hh, g.get("features") if g else None, g.get("target", "kani") if g else "kani")
                     playback_cache[hh] = (tests, log)
                 tests, log = playback_cache[hh]
-                tests = [t for t in (tests or []) if t["kind"] != "cover"]
-                if v["engine"] == "kani":
-                    want = v.get("description", "")
-                    tests = [t for t in tests if t["description"] == want] or tests
+                # candidates: the playback of the failed check itself; failing that, any other concrete input Kani
+                # printed for this harness (cover witnesses are ordinary inputs of the harness domain) - the
+                # replay on the real code decides whether a candidate reproduces the violation
+                allt = list(tests or [])
+                non_cover = [t for t in allt if t["kind"] != "cover"]
+                want = v.get("description", "") if v["engine"] == "kani" else None
+                exact = [t for t in non_cover if want and t["description"] == want]
+                tests = exact + [t for t in non_cover if t not in exact] + [t for t in allt if t["kind"] == "cover"]
                 for t in tests:
                     rep["inputs"] = t["vals"]
                     rep["harness"] = hh
